@@ -181,6 +181,19 @@ theorem delslice_effect {s : Seq} (h : Reachable s) (a b c : Option Int) (sel : 
   obtain ⟨s', h1, h2, _, _⟩ := delSlice_accepts h.wf a b c sel hsel
   exact ⟨s', h1, h2⟩
 
+/-- **The inherited mixins do what their names say** on every reachable sequence, through the repaired primitives:
+`reverse()` reverses the list, `clear()` empties it, `remove(x)` deletes the first occurrence of `x`; each leaves a
+reachable (index-consistent) sequence. -/
+theorem mixins_functional {s : Seq} (h : Reachable s) :
+    (∃ s', reverse s = (s', none) ∧ s'.items = s.items.reverse) ∧
+    (∃ s', clear s = (s', none) ∧ s'.items = []) ∧
+    (∀ x ∈ s.items, ∃ s', remove s x = (s', none) ∧
+      s'.items = s.items.take (s.items.idxOf x) ++ s.items.drop (s.items.idxOf x + 1)) := by
+  refine ⟨?_, ?_, ?_⟩
+  · obtain ⟨s', h1, h2, _⟩ := reverse_spec h.wf; exact ⟨s', h1, h2⟩
+  · obtain ⟨s', h1, h2, _⟩ := clear_spec h.wf; exact ⟨s', h1, h2⟩
+  · intro x hx; obtain ⟨s', h1, h2, _⟩ := remove_spec h.wf x hx; exact ⟨s', h1, h2⟩
+
 /-! ## The model is what the current source says (tie T for index maintenance and queries)
 
 `Gen.csProg_*` (`Generated/T14p.lean`) are the bodies of the methods of the CURRENT `ContentSequence`, mapped
